@@ -136,7 +136,7 @@ theorem copyRec_back {out : History} {r r' : Rec} {bt : Tid} (h : copyRec out r 
     rw [hnone] at hb; cases hb
   · rename_i bt' hb'
     split at h
-    · cases h
+    · injection h with h; subst h; simp at hb
     · rename_i t'' hfind
       have hmem := List.mem_of_find?_eq_some hfind
       have htid : t''.tid = bt' := by simpa using List.find?_some hfind
@@ -183,11 +183,8 @@ theorem copyTxn_mem {out : History} {t t' : Txn} (h : copyTxn out t = .ok t') :
   split at h
   · cases h
   · rename_i rs hrs
-    simp only at h
-    split at h
-    · cases h
-    · injection h with h; subst h
-      exact ⟨rfl, copyRecs_mem hrs⟩
+    injection h with h; subst h
+    exact ⟨rfl, copyRecs_mem hrs⟩
 
 /-- every transaction appended by copyRest was copied from a transaction of `post` against an
     output that is part of the final history -/
